@@ -15,7 +15,8 @@ TECHNIQUE = ('generated attach/detach histories (nested context managers, try/fi
              'snapshot (fgen text, structural dump, node identity per position) before vs. after every round trip')
 RULE = ('case = (program unit, history). Units: (a) subroutine/function/module text from lokiverif/pragsrc.py parsed with '
         'the fparser frontend (pragmas before/after/between declarations, external declarations, inside derived types and '
-        'interface bodies, before/after loops, do while, calls, at the start/end of every nested body, runs of pragmas, '
+        'interface bodies, before/after loops, do while, calls, at the start/end of every nested body - if / select case / '
+        'select type (type is, class is, class default) branches, where, associate -, runs of pragmas, '
         'planted same-depth region pairs - nested, crossing, mismatching keyword/marker - and stray start/end pragmas at '
         'other depths); (b) synthetic Subroutine(spec, body) trees from lokiverif/irtree/gen.py with equal duplicate nodes '
         'and source-less pragmas. Histories: trees of pragmas_attached(node-type subset, attach_pragma_post) / '
@@ -438,8 +439,11 @@ def placement_classes(unit):
                     out.add('pragma:after-loop(post-candidate)')
                 if i == 0:
                     out.add('pragma:first-in-body')
-                if owner in ('TypeDef', 'Interface', 'MaskedStatement', 'MultiConditional', 'Forall', 'Associate'):
+                if owner in ('TypeDef', 'Interface', 'MaskedStatement', 'MultiConditional', 'TypeConditional', 'Forall',
+                             'Associate'):
                     out.add(f'pragma:inside-{owner}')
+                    if owner == 'TypeConditional' and nxt is not None and type(nxt).__name__ in has:
+                        out.add('pragma:inside-TypeConditional-before-attachable-node')
                 if '\n' in (x.content or '') or '&' in (x.content or ''):
                     out.add('pragma:continuation-lines')
             elif isinstance(x, ir.Node):
@@ -453,6 +457,8 @@ def placement_classes(unit):
                 if v is not None:
                     node(v)
             return
+        if isinstance(x, ir.TypeConditional):
+            out.add('has-select-type')
         for k in x.__dataclass_fields__:
             if k in SKIP:
                 continue
